@@ -16,10 +16,13 @@ import HexVerif.Lemmas.AsmJunk
                          of a batch is the result of compiling that source alone (each C++ compilation
                          constructs its own `Driver`, `Lexer`, `Parser`, symbol table and counters).
 
-  What is NOT covered by proof: the stages after the parser (`ValDecl::exprValue`, repaired by the D13
-  `fix:`; `Symbol::stackOffset`; `CodeBuffer::currentFrame`; ordered containers and label/constant/
-  string counters), and hexasm (see the lemmas on `Asm.tokenize` if present).  Those are covered by the
-  perturbation matrix of `./check C11` on the real code.
+  hexasm (`Hex.Asm` below): `Asm.run`, the model of the whole assembler from the source bytes, with
+  the same treatment of its lexer's `value`: `C11_asm_junk`.
+
+  What is NOT covered by proof: xcmp's stages after the parser (`ValDecl::exprValue`, repaired by the
+  D13 `fix:`; `Symbol::stackOffset`; `CodeBuffer::currentFrame`; ordered containers and label/constant/
+  string counters) and hexasm's `InstrLabel::labelValue` (set by the model's `resolve` before use).
+  Those are covered by the perturbation matrix of `./check C11` on the real code.
 -/
 namespace Hex.Xcmp
 
@@ -50,10 +53,12 @@ end Hex.Xcmp
 
 namespace Hex.Asm
 
-/-- hexasm: the token sequence does not depend on the junk in `Lexer::value`, except in the `value`
-    field of tokens that are not NUMBER - which `Asm.parseProgram` never reads (`parseInteger` reads it
-    under `tok = NUMBER` only).  The parser-level statement is not proved yet. -/
-theorem C11_asm_tokens_junk (j1 j2 : Nat) (src : List Byte) : RToks (tokenizeJ j1 src) (tokenizeJ j2 src) :=
-  tokenizeJ_rel j1 j2 src
+/-- hexasm: the outcome of the whole assembler model (image and directive list, diagnostic, or the
+    model's iteration bound) does not depend on the junk in the uninitialised `Lexer::value`: the token
+    sequences differ at most in the `value` field of tokens that are not NUMBER, and the parser reads
+    that field only in `parseInteger`, under `tok = NUMBER`. -/
+theorem C11_asm_junk (j1 j2 : Nat) (src : List Byte) : runJ j1 src = runJ j2 src := runJ_indep j1 j2 src
+
+theorem C11_asm_run_is_runJ (src : List Byte) : Asm.run src = runJ 0 src := run_eq_runJ src
 
 end Hex.Asm
